@@ -1640,8 +1640,9 @@ def run(chk, drv, rng, tier):
             heavy = bool(spec.quick_cells)       # cross-fit estimators: every fit is (partitions x splits x 2) learner fits
             if ci == 0 or not quick:
                 hs += [(ops, True) for ops in guard_stream(rng, spec, cell) if not (heavy and quick and len(ops) > 1)]
-            hs += [(ops, True) for ops in refit_stream(rng, spec, cell, refits=2 if (heavy and quick) else 4)]
-            for _ in range((0 if heavy else 2) if quick else (2 if heavy else 6)):
+            hs += [(ops, True) for ops in refit_stream(rng, spec, cell, refits=3 if (heavy and quick) else 4)
+                   ][(2 if (heavy and quick) else 0):]        # expensive classes, quick tier: the refit run only
+            for _ in range((0 if heavy else 1) if quick else (2 if heavy else 6)):
                 length = int(rng.integers(3, 9)) if quick else int(rng.integers(4, 15))
                 hs.append((gen_ops(rng, spec, cell, length), not quick))
             for ops, every in hs:
